@@ -158,12 +158,13 @@ VERIF_OBLIGATION(obl_c15_box)
         verif_assert(x[i] >= lo[i] && x[i] <= hi[i], "inside the box");
 }
 
-VERIF_OBLIGATION(obl_c15_selector)
+namespace
+{
+template<unsigned n>
+inline void selector_case()
 {
     constexpr unsigned NW = 4;
     double w[NW];
-    unsigned n = verif_nondet_u32("size");
-    verif_assume(n >= 1 && n <= NW);
     double total = 0;
     for (unsigned i = 0; i < NW; ++i)
     {
@@ -173,11 +174,41 @@ VERIF_OBLIGATION(obl_c15_selector)
             total += w[i];
     }
     verif_assume(total > 0);
+    // the caller-provided normalisation only has to be soft-equal to the accumulated weights (constructor precondition, relative 1e-12):
+    // the class promises never to iterate off the end "even for an incorrect total"
+    double given = num("given_total");
+    verif_assume(given > 0 && given - total <= 1e-12 * total && total - given <= 1e-12 * total);
+    unsigned evals = 0;
+    bool out_of_range = false;
     StubRng rng;
-    auto select = make_selector([&w](unsigned i) { return w[i]; }, n, total);
+    auto select = make_selector(
+        [&](unsigned i) {
+            ++evals;
+            out_of_range = out_of_range || i >= n;
+            return w[i < NW ? i : 0];
+        },
+        n,
+        given);
     unsigned k = select(rng);
     verif_reach("selector");
     verif_assert(rng.draws == 1, "one draw");
     verif_assert(k < n, "selected index is valid");
-    verif_assert(w[k] > 0 || k == n - 1, "an index is returned only if its weight is positive (or it is the last)");
+    verif_assert(w[k < NW ? k : 0] > 0 || k == n - 1, "an index is returned only if its weight is positive (or it is the last)");
+    verif_assert(!out_of_range && evals < n, "the weight functor is evaluated only at valid indices, never for the last one");
+}
+}  // namespace
+
+VERIF_OBLIGATION(obl_c15_selector)
+{
+    // one path per size, so that the loop bound is concrete on every path
+    unsigned n = verif_nondet_u32("size");
+    verif_assume(n >= 1 && n <= 4);
+    if (n == 1)
+        selector_case<1>();
+    else if (n == 2)
+        selector_case<2>();
+    else if (n == 3)
+        selector_case<3>();
+    else
+        selector_case<4>();
 }
